@@ -90,7 +90,9 @@ fn build_universe(ctx: &Context, depth: usize) -> Vec<Ty> {
         u.push(t);
     }
     // generic instantiations
-    let args1 = ["Int", "Float", "Str", "A", "B", "Int?"];
+    // the argument set contains two chains of length 3 (Int <= Float <= Complex, D <= B <= A): assignability between
+    // instantiations must follow the arguments' order over more than one inheritance step
+    let args1 = ["Int", "Float", "Str", "A", "B", "Int?", "Complex", "D"];
     let arg_names: Vec<(String, Name)> = args1.iter().map(|l| (l.to_string(), u[idx[*l]].name.clone())).collect();
     let mut level: Vec<(String, Name)> = arg_names.clone();
     for d in 0..depth {
